@@ -182,3 +182,49 @@ def marshal(front, tname, buffer, cc=None, enc=None, strict=True, root=""):
     if enc is not None:
         kw["parameter_encryption"] = enc
     return FRONTS[front].marshal(**kw)
+
+
+def api_noise(seed):
+    """Calls of public, supposedly pure helpers of the library between decodes (a tool built on tpmstream does such
+    things all the time): filtered algorithm views, enum iteration / membership / construction, named ranges, text forms,
+    attribute listings.  Returns the number of calls made; what they return is not judged, only that decoding before and
+    after them is the same."""
+    import random
+    from tpmstream.spec.structures import constants as C
+    from tpmstream.spec.structures import structures_types
+    rng = random.Random(seed)
+    n = 0
+    prims = [t for t in structures_types if hasattr(t, "_int_size")]
+    for _ in range(rng.randint(2, 8)):
+        k = rng.randrange(9)
+        try:
+            if k == 0:
+                C.TPM_ALG.by_type_exactly(*rng.sample(list(C.AlgType), rng.randint(1, 2)))
+            elif k == 1:
+                C.TPM_ALG.by_type_at_least(rng.choice(list(C.AlgType)))
+            elif k == 2:
+                list(rng.choice((C.TPM_ALG, C.TPM_CC, C.TPM_ST, C.TPM_ECC_CURVE, C.TPM_RC if hasattr(C, "TPM_RC") else C.TPM_CC)))
+            elif k == 3:
+                t = rng.choice(prims)
+                v = t(rng.choice((0, 1, 4, 0x0B, 0x10, 0x60, 0x8001, 0x17B, 0x40000001, 0x81000000)))
+                "{}".format(v), str(v), repr(v), int(v), v.is_valid(), hash(v)
+            elif k == 4:
+                t = rng.choice(prims)
+                rng.choice((0, 1, 4, 0x0B, 0x10, 0x17B)) in t._valid_values
+                iter(t._valid_values)
+            elif k == 5:
+                t = rng.choice([x for x in prims if hasattr(x, "attributes")])
+                v = t(rng.choice((0, 1, 0x20, 0x40, 0x60, 0xF6, 0xFF)))
+                [(getattr(v, a._name), "{}".format(a)) for a in v.attributes()]
+            elif k == 6:
+                C.TPM_ALG.filter(lambda name, attr: name.startswith("S"))
+            elif k == 7:
+                C.TPM_CC(rng.choice((0x17B, 0x144, 0x11E, 0)))
+                C.TPM_ALG(rng.choice((1, 4, 0x0B, 0x7FFF)))
+            else:
+                from tpmstream.common.path import Path
+                Path.from_string(rng.choice((".", ".a.b", "x.y")))
+        except Exception:
+            pass
+        n += 1
+    return n
